@@ -56,10 +56,9 @@ PatByte(pat, i) == CASE pat = "distinct" -> 128 + ((i - 1) % 128)
 Body(n, pat) == IF n = 0 THEN <<>> ELSE [i \in 1..n |-> PatByte(pat, i)]
 
 \* ------------------------------------------------------------------ chunk writer (reference)
-\* lengths of the chunks incl. the terminating 0-chunk
-RECURSIVE ChunkLens(_, _)
-ChunkLens(n, c) == IF n = 0 THEN <<0>> ELSE <<Min(n, c)>> \o ChunkLens(n - Min(n, c), c)
 NumChunks(n, c) == ((n + c - 1) \div c) + 1
+\* lengths of the chunks incl. the terminating 0-chunk
+ChunkLens(n, c) == [i \in 1..NumChunks(n, c) |-> IF i < NumChunks(n, c) THEN Min(c, n - ((i - 1) * c)) ELSE 0]
 \* length of the chunked stream (closed form; used for bodies too large to build in TLC)
 FramedLen(n, c) == ((n \div c) * (HexLen(c) + c + 4))
                    + (IF n % c > 0 THEN HexLen(n % c) + (n % c) + 4 ELSE 0) + 5
@@ -72,17 +71,29 @@ SizeTok(k, style) == CASE style = "plain" -> HexOf(k)
                        [] style = "lead0" -> <<48>> \o HexOf(k)
                        [] style = "ext" -> HexOf(k) \o ExtBytes
 
-RECURSIVE Chunked(_, _, _)
+\* concatenation f[lo] \o ... \o f[hi] by halving (recursion depth log2, TLC's stack is small)
+RECURSIVE Concat(_, _, _)
+Concat(f, lo, hi) == IF lo > hi THEN <<>>
+                     ELSE IF lo = hi THEN f[lo]
+                     ELSE LET mid == (lo + hi) \div 2 IN Concat(f, lo, mid) \o Concat(f, mid + 1, hi)
+
+\* chunk i of body b: size line, CR LF, data, CR LF (the last one has size 0 and no data)
+ChunkFrame(b, c, style, i) ==
+  LET k == ChunkLens(Len(b), c)[i]
+      from == ((i - 1) * c) + 1
+  IN SizeTok(k, style) \o <<CR, LF>> \o (IF k = 0 THEN <<>> ELSE SubSeq(b, from, from + k - 1)) \o <<CR, LF>>
+
 Chunked(b, c, style) ==
-  IF Len(b) = 0 THEN SizeTok(0, style) \o <<CR, LF, CR, LF>>
-  ELSE LET k == Min(Len(b), c) IN
-       SizeTok(k, style) \o <<CR, LF>> \o SubSeq(b, 1, k) \o <<CR, LF>> \o Chunked(SubSeq(b, k + 1, Len(b)), c, style)
+  LET m == NumChunks(Len(b), c) IN Concat([i \in 1..m |-> ChunkFrame(b, c, style, i)], 1, m)
 
 \* ------------------------------------------------------------------ chunk grammar / decoder
 \* position of the CR of the first CR LF at or after p; 0 if there is none
-RECURSIVE FindCrLf(_, _)
-FindCrLf(s, p) == IF p + 1 > Len(s) THEN 0
-                  ELSE IF s[p] = CR /\ s[p + 1] = LF THEN p ELSE FindCrLf(s, p + 1)
+\* (no recursion: first a window that covers every sane size line, then the rest of the stream)
+CrLfAt(s, q) == s[q] = CR /\ s[q + 1] = LF
+FindCrLf(s, p) == LET near == {q \in p..Min(Len(s) - 1, p + 15) : CrLfAt(s, q)} IN
+                  IF near # {} THEN MinOf(near)
+                  ELSE LET far == {q \in (p + 16)..(Len(s) - 1) : CrLfAt(s, q)} IN
+                       IF far = {} THEN 0 ELSE MinOf(far)
 
 FirstIdx(s, b) == IF \E i \in 1..Len(s) : s[i] = b THEN MinOf({i \in 1..Len(s) : s[i] = b}) ELSE 0
 
@@ -105,35 +116,44 @@ SizeOf(tok) ==
 
 SizeLineTok(line) == LET semi == FirstIdx(line, SEMI) IN IF semi = 0 THEN line ELSE SubSeq(line, 1, semi - 1)
 
-PErr(why) == [ok |-> FALSE, why |-> why, body |-> <<>>, used |-> 0, lenient |-> FALSE]
-
 \* the rest of a stream is a zero chunk-size whose line end was cut off ("0", "00", "0" CR): every data byte has
 \* arrived, only the terminator is incomplete
 CutLastChunk(rest) == LET t == Strip(SizeLineTok(rest)) IN Len(t) > 0 /\ Len(t) <= 6 /\ \A i \in 1..Len(t) : t[i] = ZERO
 
-\* Decode the chunked body that starts at position p of s.  Trailer fields are not modelled (the last chunk must
-\* be followed directly by CR LF); bytes after the end of the body are left alone (`used` = bytes consumed).
+\* Decoding state: status "run" (next chunk starts at p), "ok", "err"
+PRun(p, acc, len) == [status |-> "run", p |-> p, body |-> acc, lenient |-> len, why |-> "", used |-> 0]
+PDone(acc, used, len) == [status |-> "ok", p |-> 0, body |-> acc, lenient |-> len, why |-> "", used |-> used]
+PFail(why) == [status |-> "err", p |-> 0, body |-> <<>>, lenient |-> FALSE, why |-> why, used |-> 0]
+
+\* Decode one chunk.  Trailer fields are not modelled (the last chunk must be followed directly by CR LF);
+\* bytes after the end of the body are left alone (`used` = bytes consumed).
 \* A stream that ends inside the terminator (after the "0" of the last chunk) carries the complete data: a reader
 \* may reject it as truncated or return the body (`lenient`).  A stream that ends anywhere earlier is an error.
-RECURSIVE ParseFrom(_, _, _, _)
-ParseFrom(s, p, acc, len) ==
-  LET e == FindCrLf(s, p) IN
-  IF e = 0 THEN (IF CutLastChunk(SubSeq(s, p, Len(s)))
-                 THEN [ok |-> TRUE, why |-> "", body |-> acc, used |-> Len(s), lenient |-> TRUE]
-                 ELSE PErr("eof_in_size"))
-  ELSE LET sz == SizeOf(SizeLineTok(SubSeq(s, p, e - 1)))
-           d == e + 2
-       IN IF ~sz.ok THEN PErr(sz.why)
-          ELSE IF d + sz.val - 1 > Len(s) THEN PErr("eof_in_data")
-          ELSE IF d + sz.val + 1 > Len(s)
-               THEN (IF sz.val = 0 THEN [ok |-> TRUE, why |-> "", body |-> acc, used |-> Len(s), lenient |-> TRUE]
-                     ELSE PErr("eof_in_crlf"))
-          ELSE IF ~(s[d + sz.val] = CR /\ s[d + sz.val + 1] = LF) THEN PErr("no_crlf")
-          ELSE IF sz.val = 0
-               THEN [ok |-> TRUE, why |-> "", body |-> acc, used |-> d + 1, lenient |-> (len \/ sz.lenient)]
-               ELSE ParseFrom(s, d + sz.val + 2, acc \o SubSeq(s, d, d + sz.val - 1), len \/ sz.lenient)
+ParseStep(s, x) ==
+  IF x.status # "run" THEN x
+  ELSE LET e == FindCrLf(s, x.p) IN
+       IF e = 0 THEN (IF CutLastChunk(SubSeq(s, x.p, Len(s))) THEN PDone(x.body, Len(s), TRUE)
+                      ELSE PFail("eof_in_size"))
+       ELSE LET sz == SizeOf(SizeLineTok(SubSeq(s, x.p, e - 1)))
+                d == e + 2
+            IN IF ~sz.ok THEN PFail(sz.why)
+               ELSE IF d + sz.val - 1 > Len(s) THEN PFail("eof_in_data")
+               ELSE IF d + sz.val + 1 > Len(s)
+                    THEN (IF sz.val = 0 THEN PDone(x.body, Len(s), TRUE) ELSE PFail("eof_in_crlf"))
+               ELSE IF ~(s[d + sz.val] = CR /\ s[d + sz.val + 1] = LF) THEN PFail("no_crlf")
+               ELSE IF sz.val = 0 THEN PDone(x.body, d + 1, x.lenient \/ sz.lenient)
+               ELSE PRun(d + sz.val + 2, x.body \o SubSeq(s, d, d + sz.val - 1), x.lenient \/ sz.lenient)
 
-Parse(s) == ParseFrom(s, 1, <<>>, FALSE)
+\* k-fold application of ParseStep by halving (recursion depth log2 k; finished states are absorbing)
+RECURSIVE ParseIter(_, _, _)
+ParseIter(s, x, k) == IF x.status # "run" THEN x
+                      ELSE IF k <= 1 THEN ParseStep(s, x)
+                      ELSE ParseIter(s, ParseIter(s, x, k \div 2), k - (k \div 2))
+
+\* every chunk takes at least 5 bytes, so Len \div 5 + 1 steps always reach "ok" or "err"
+Parse(s) == LET r == ParseIter(s, PRun(1, <<>>, FALSE), (Len(s) \div 5) + 1) IN
+            [ok |-> r.status = "ok", finished |-> r.status # "run", why |-> r.why, body |-> r.body,
+             used |-> r.used, lenient |-> r.lenient]
 
 \* the stream is exactly one strictly valid chunked body
 ValidChunked(s) == LET P == Parse(s) IN P.ok /\ ~P.lenient /\ P.used = Len(s)
